@@ -25,7 +25,8 @@ ENCODED = [daemons._timer, daemons._runner, daemons.spawn_daemons, aiotime.sleep
 META = {
     'bounds': 'interval cell in {None,1,2,3,5} (x % interval needs a concrete modulus), sharp cell, idle/initial_delay symbolic '
               'ints >= 0 (or absent, cell); 3 runs; handler durations symbolic unbounded ints; first run may fail with '
-              'TemporaryError(delay symbolic) or an arbitrary error (backoff symbolic); one essential change at a symbolic instant.',
+              'TemporaryError(delay symbolic) or an arbitrary error (backoff symbolic); one essential change at a symbolic instant. '
+              'The idle-only timer (no interval) re-checks every idle seconds until a change: concrete idle=4 s, change within 10 s, symbolic first run.',
     'outside': 'microsecond quantisation of timedelta(seconds=float) and IEEE rounding; more than 3 runs; sync timers; '
                'callable initial_delay',
     'stubs': ['api.patch -> FakeServer', 'progression.datetime/iso8601 -> affine shim (validated against stdlib in selftest)'],
@@ -85,7 +86,7 @@ def run_timer(interval, sharp, idle, initial_delay, durs, fail0, delay0, backoff
                     await w.process('MODIFIED')
                 asyncio.create_task(changer())
             if interval is None:
-                horizon = (change_at or 0) + 3 * (idle or 0) + sum(durs) + (initial_delay or 0) + 10
+                horizon = (change_at or 0) + 3 * (idle or 0) + sum(durs) + (initial_delay or 0) + (idle or 10)   # (no constant slack: it would split on 10/idle)
                 try:
                     await asyncio.wait_for(state['done'].wait(), timeout=horizon)
                 except asyncio.TimeoutError:
@@ -111,8 +112,14 @@ def h_laws(d0: int, d1: int, d2: int, fail0: int, delay0: int, backoff: int, idl
     if not c.get('fail', True) and fail0:
         return True
     d2 = 0                      # the duration of the last observed run is irrelevant (nothing follows it)
+    if c.get('idle_value') is not None:
+        idle = c['idle_value']  # an idle-only timer re-checks every `idle` seconds until the change: every further period of a
+    if c.get('change_max') is not None and use_change and change_at > c['change_max']:
+        return True             # symbolic wait is another case split, so this cell has a concrete idle time and a bounded change instant
     if c.get('short_runs'):
         d1 = 0
+    if c.get('instant_runs'):
+        d0 = d1 = 0
     try:
         runs, state, changes = run_timer(interval, sharp, idle if use_idle else None, initial_delay if use_init else None,
                                          [d0, d1, d2], fail0, delay0, backoff if c.get('backoff', True) else None,
@@ -191,6 +198,6 @@ def obligations():
                   path_timeout=200, tiers=('thorough',)))
     obs.append(Ob('h_laws', {'interval': 2, 'sharp': True, 'idle': True, 'change': True, 'fail': False}, timeout=3400,
                   path_timeout=200, tiers=('thorough',)))
-    obs.append(Ob('h_laws', {'interval': None, 'idle': True, 'change': True, 'fail': False, 'nruns': 2}, timeout=3400,
-                  path_timeout=200, tiers=('thorough',)))
+    obs.append(Ob('h_laws', {'interval': None, 'idle': True, 'change': True, 'fail': False, 'nruns': 2, 'idle_value': 4, 'change_max': 10,
+                             'short_runs': True}, timeout=900, path_timeout=200))
     return obs
